@@ -66,6 +66,8 @@ class Sim:
             self.faults.setdefault((f["pid"], f["step"]), []).append(dict(f))
         self.fired = {}            # fault kind -> count actually applied
         self.kill_hooks = []       # callables(proc) run by the "OS" when a process dies
+        self.switch_in_hooks = []  # callables(proc) run just before a process gets the baton
+        self.switch_out_hooks = []  # callables(proc) run right after it handed the baton back
         self.truncated = False
         self.schedule = []         # pid per step, for reporting
         self._tl = threading.local()
@@ -221,8 +223,12 @@ class Sim:
             self.steps += 1
             self.schedule.append(p.pid)
             self._advance(p.op_dur)
+            for h in self.switch_in_hooks:
+                h(p)
             p.sem.release()
             self.main_sem.acquire()
+            for h in self.switch_out_hooks:
+                h(p)
         return self
 
     def run_one(self, name, fn, op_dur=0.001):
